@@ -124,4 +124,11 @@ PROPS = {
         note="Canonical goroutine schedule; flips happen at instants where no RA is being built (the concurrent case is C17's); the second advertising interface and the monitor interface exist for the scrape/API paths only.",
         parts=[part("histories", "internal/corerad", "TestVerifC04", mode="sched", gomaxprocs=2, shards={"quick": 12, "thorough": 16})],
     ),
+    "C08": dict(
+        level="model_checking", engine="sched",
+        technique="stateless delay-bounded exploration of goroutine interleavings of the instrumented real Advertiser around constructed stop instants (idle, response pending, transmission in flight, solicitation arriving, periodic RA due), with transmit latency and random-delay draws as explorer choices",
+        text="For each stop instant class and each signal kind, every schedule of the advertiser's goroutines (scheduler, schedgroup monitor and workers, listener, interrupt goroutine, multicast loop) within 1 (quick) / 2 (thorough) deviations from the canonical schedule is executed; on the ordered log of WriteTo/ReadFrom begins, cancellation and Run's return: Run returns nil within 1 s, exactly one zero-lifetime multicast RA iff terminating and nothing begins after it, nothing after return.",
+        note="Deviation-bounded (not all interleavings); scheduling points are the instrumented synchronisation operations and seam calls; un-instrumented code between two points is atomic.",
+        parts=[part("sched", "internal/corerad", "TestVerifC08", mode="sched", gomaxprocs=2, shards={"quick": 8, "thorough": 16})],
+    ),
 }
